@@ -2,7 +2,7 @@
 # tools/adopt_seeded.sh <Cxx> <suffix> — take a finished seeded change from the sub-agent's scratch worktree /tmp/mut4/<Cxx> into
 # /verif/seeded/<Cxx><suffix>/ (patch.diff regenerated from the worktree's diff, demo.py, meta.json), confirm it in a FRESH worktree
 # (tools/confirm_seeded.sh), run the property's quick check against it (tools/mtest_patch.sh), and remove the agent's worktree.
-p="$1"; suf="$2"; id="$p$suf"; W=/tmp/mut4/$p
+p="$1"; suf="$2"; id="$p$suf"; W=${MUTDIR:-/tmp/mut4}/$p
 [ -f $W/demo.py ] && [ -f $W/meta.json ] || { echo "$id: worktree incomplete"; exit 2; }
 mkdir -p /verif/seeded/$id
 git -C $W diff -- speckit > /verif/seeded/$id/patch.diff
